@@ -6,6 +6,9 @@ import os
 import sys
 import time
 import traceback
+import warnings
+
+warnings.simplefilter('ignore')
 
 HERE = os.path.dirname(os.path.abspath(__file__))
 sys.path.insert(0, HERE)
